@@ -29,8 +29,10 @@ fn requested(j: &Op) -> Option<(Pkt, u8, u8, usize)> {
     match j {
         Op::Rx { p, end: RxEnd::Done { len, off }, buf, .. } => Some((*p, *len, *off, *buf as usize)),
         Op::KFetch { p, len, off, buf } => Some((*p, *len, *off, *buf as usize)),
+        Op::Rx2 { p, second, buf, .. } => Some((*p, second.0, second.1, *buf as usize)),
+        Op::LwRx2 { second, buf, .. } => Some((Pkt::new(false, 255), second.0, second.1, *buf as usize)),
         // the adapter always configures explicit header, maximum 255
-        Op::LwRx { end: RxEnd::Done { len, off }, buf, .. } => Some((Pkt { implicit: false, len: 255 }, *len, *off, *buf as usize)),
+        Op::LwRx { end: RxEnd::Done { len, off }, buf, .. } => Some((Pkt::new(false, 255), *len, *off, *buf as usize)),
         _ => None,
     }
 }
@@ -55,13 +57,22 @@ pub fn judge_hist(h: &Hist, out: &Outcome) -> HV {
     let want = if p.implicit { p.len as usize } else { len as usize };
     let case = || h.json("C18");
     let x = Expect { case: &case, chip: c18_chip(h), want, off, size: buf.min(256), implicit: p.implicit, fp_suffix: SUFFIX };
-    match judge_fetch(&x, hist::as_fetch(f), &f.store) {
-        Ok(o) => HV::Ok(o),
+    let first = match judge_fetch(&x, hist::as_fetch(f), &f.store) {
+        Ok(o) => o,
         Err(mut e) => {
             e.detail = format!("{} as the last step of the history: {}", hist::op_name(h.judged()), e.detail);
-            HV::Fail(e)
+            return HV::Fail(e);
+        }
+    };
+    // the same reception fetched once more: the statement holds for every fetch
+    if let Some(f2) = &out.last.fetch2 {
+        let x2 = Expect { fp_suffix: "/after-history/second-fetch", ..x };
+        if let Err(mut e) = judge_fetch(&x2, hist::as_fetch(f2), &f2.store) {
+            e.detail = format!("{}: fetching the same reception once more with get_rx_result: {}", hist::op_name(h.judged()), e.detail);
+            return HV::Fail(e);
         }
     }
+    HV::Ok(first)
 }
 
 pub fn run_hist(h: &Hist) -> (Option<Outcome>, HV) {
@@ -97,34 +108,44 @@ fn nontrivial(j: &Op) -> bool {
 
 fn requests(level: usize) -> Vec<Op> {
     let mut v = vec![];
-    // packet parameters: implicit header with several lengths, explicit header (maximum 255 and a lower maximum)
+    // packet parameters: implicit header with several lengths, explicit header (maximum 255 and a lower maximum);
+    // CRC, IQ inversion and preamble length vary along (they share registers / one command with the length)
     let pkts = [
-        Pkt { implicit: true, len: 0 },
-        Pkt { implicit: true, len: 1 },
-        Pkt { implicit: true, len: 12 },
-        Pkt { implicit: true, len: 64 },
-        Pkt { implicit: true, len: 200 },
-        Pkt { implicit: true, len: 255 },
-        Pkt { implicit: false, len: 255 },
-        Pkt { implicit: false, len: 64 },
+        Pkt::new(true, 0),
+        Pkt::new(true, 1).with(false, true, 0),
+        Pkt::new(true, 12).with(true, false, 12),
+        Pkt::new(true, 64).with(false, false, 65535),
+        Pkt::new(true, 200),
+        Pkt::new(true, 255).with(false, true, 6),
+        Pkt::new(false, 255),
+        Pkt::new(false, 255).with(false, false, 65535),
+        Pkt::new(false, 64).with(true, false, 0),
     ];
     for p in pkts {
         // what the chip reports: in implicit mode a decoy length, in explicit mode the length that counts
-        let reports: Vec<(u8, u8)> = if p.implicit { vec![(p.len.wrapping_add(7), 0), (0, 0xF0)] } else { vec![(13, 0), (200, 0xF0), (0, 3)] };
+        let reports: Vec<(u8, u8)> = if p.implicit { vec![(p.len.wrapping_add(7), 0), (0, 0xF0)] } else { vec![(13, 0), (200, 0xF0), (0, 3), (255, 1)] };
         for (len, off) in reports {
-            for buf in [256u16, 64] {
+            // caller buffers: ample, small, and exactly / one less than / one more than the length that counts
+            let want = if p.implicit { p.len as u16 } else { len as u16 };
+            let mut bufs: Vec<u16> = vec![256, 64, want, want.saturating_sub(1), (want + 1).min(256)];
+            bufs.sort();
+            bufs.dedup();
+            for buf in bufs {
                 match level {
                     KIND => v.push(Op::KFetch { p, len, off, buf }),
                     LORA => {
                         v.push(Op::Rx { m: M, p, mode: Mode::Single(20), end: RxEnd::Done { len, off }, buf });
-                        if buf == 256 {
+                        if buf >= 64 {
                             v.push(Op::Rx { m: M, p, mode: Mode::Continuous, end: RxEnd::Done { len, off }, buf });
+                            // second reception of one start_rx (the buffer pointer has moved on), fetched twice
+                            v.push(Op::Rx2 { m: M, p, first: (if p.implicit { p.len } else { 21 }, off.wrapping_sub(21)), second: (len, off), buf, refetch: true });
                         }
                     }
                     _ => {
-                        if !p.implicit && p.len == 255 {
+                        if !p.implicit && p.len == 255 && p.crc {
                             v.push(Op::LwRx { m: M, ms: Some(20), end: RxEnd::Done { len, off }, buf });
                             v.push(Op::LwRx { m: M, ms: None, end: RxEnd::Done { len, off }, buf });
+                            v.push(Op::LwRx2 { m: M, first: (21, off.wrapping_sub(21)), second: (len, off), buf });
                         }
                     }
                 }
@@ -177,7 +198,7 @@ fn account(h: &Hist, out: &Option<Outcome>, v: HV, st: &mut Stats, enumerated: b
     }
 }
 
-pub const RULE: &str = " STATEFUL STAGE (props/hist.rs; this part uses VERIF_SEED for its random histories): the judged reception is the last step of a history executed on ONE driver instance over ONE chip double (SX1262, SX1276, SX1272) that keeps the SetPacketParams payload length in register 0x0702 / RegPayloadLength like the silicon and forgets it with the rest of the configuration in a sleep without retention or a reset; the chip reports (length, offset) for the last reception and the fetch is judged by the same oracle as above (error, or exactly the reported / configured number of bytes from the reported position, canary intact). Judged receptions: implicit header with configured lengths 0, 1, 12, 64, 200, 255 (reported length a decoy) and explicit header (maximum 255 and 64; reported 13, 200 at offset 0xF0 wrapping, 0) x caller buffers 256 and 64 through RadioKind set_packet_params+get_rx_payload, LoRa prepare_for_rx+rx (Single, Continuous), LorawanRadio setup_rx+rx_single / rx_continuous. ENUMERATED: every prefix of depth 0..=2 over an alphabet built relative to the judged reception: the same reception completed / timed out / prepared but never started, receptions with OTHER packet parameters (another implicit length, the other header mode), transmissions (which reprogram the packet length), listen, CAD, rx_switch_channel, sleep warm+cold, init / reset, and at the RadioKind level the individual set_* / do_* calls. RANDOM: proptest histories of 1..=8 prefix operations (shrinking). Non-trivial (stateful stage) = judged after a non-empty prefix (enumerated: distinct by construction; random: by hash when longer than every enumerated history).";
+pub const RULE: &str = " STATEFUL STAGE (props/hist.rs; this part uses VERIF_SEED for its random histories): the judged reception is the last step of a history executed on ONE driver instance over ONE chip double (SX1262, SX1276, SX1272) that keeps the SetPacketParams payload length in register 0x0702 / RegPayloadLength like the silicon and forgets it with the rest of the configuration in a sleep without retention or a reset; the chip reports (length, offset) for the last reception and the fetch is judged by the same oracle as above (error, or exactly the reported / configured number of bytes from the reported position, canary intact). Judged receptions: implicit header with configured lengths 0, 1, 12, 64, 200, 255 (reported length a decoy) and explicit header (maximum 255 and 64; reported 13, 200 at offset 0xF0 wrapping, 0, 255 at offset 1), with CRC on/off, IQ inverted or not and preamble lengths 0 / 6 / 8 / 12 / 65535 varying along, x caller buffers 256, 64 and exactly / one less / one more than the length that counts, through RadioKind set_packet_params+get_rx_payload, LoRa prepare_for_rx+rx (Single, Continuous), LoRa prepare_for_rx + ONE start_rx + TWO receptions completed by complete_rx (the second one, at an advanced buffer pointer, is judged, and fetched a second time through get_rx_result: both fetches must satisfy the oracle), LorawanRadio setup_rx+rx_single / rx_continuous and one setup_rx followed by two rx_continuous. ENUMERATED: every prefix of depth 0..=2 over an alphabet built relative to the judged reception: the same reception completed / timed out / prepared but never started, receptions with OTHER packet parameters (another implicit length, the other header mode), transmissions (which reprogram the packet length), listen, CAD, rx_switch_channel, sleep warm+cold, init / reset, and at the RadioKind level the individual set_* / do_* calls. RANDOM: proptest histories of 1..=8 prefix operations (shrinking). Non-trivial (stateful stage) = judged after a non-empty prefix (enumerated: distinct by construction; random: by hash when longer than every enumerated history).";
 
 pub fn stage(ctx: &mut Ctx) {
     let full = ctx.tier == Tier::Thorough;
